@@ -5,7 +5,7 @@ from . import rtgen as R
 ID = "C12"
 THEOREMS = ['Portus.C12.get_field_spec', 'Portus.C12.get_field_no_panic', 'Portus.C12.getField_eq', 'Portus.C12.stale_scope', 'Portus.C12.value_is_own_slot', 'Portus.C12.declared_report_variable_reads_its_slot', 'Portus.C12.check_model']
 SPEC_IS_ORACLE = True
-KEEP = {"RP", "GF", "GFP", "SP"}
+KEEP = {"RP", "GF", "GFP", "SP", "CU"}
 RELATION = 'result of every Report::get_field(name, scope) call made inside on_report (value | stale | invalidtype | invalidreport | notfound)'
 RULE = "inside on_report of the scripted runtime: names of every class (declared report incl. legacy Report.x, control, local, primitives, implicit, reserved, undeclared, near-miss spellings) against the current scope and against scopes of other programs (gfp), reports of 1..5 values for programs with 1..4 report variables (so slots beyond the report occur), reports carrying the right uid, another program's uid (stale), a literal unknown uid, and uid 0. non-trivial = at least one OK value and one refusal; distinct by case line"
 EXPLANATION = 'theorems: get_field is total (the slice index is guarded) and equals the decision table stale > not-found > invalid-type > invalid-report > value-at-own-slot, for all reports, names and scopes; a successful lookup returns fields[idx] for the report register the name is bound to, and with C13 the k-th declared report variable reads slot k. Oracle = the closed form'
@@ -22,6 +22,8 @@ def project(c, r):
 
 def gen(ctx):
     rng = ctx.rng
+    for a in R.own_scope_cases(rng, 120 if ctx.thorough else 36):
+        yield Case("RUN", a, tags=("own-scope",))
     for _ in range(40000 if ctx.thorough else 3000):
         # (a quarter of the histories contain hand-written measurements: count word over- or under-announcing the values carried,
         # declared length longer than what arrived - a too-short report must stay too short)
